@@ -304,9 +304,10 @@ func bestPracticesCheck(token jwt.Token) error {
 		}
 	}
 
-	// Ensure JTI is a UUID
+	// Ensure JTI is a UUID. uuid.Parse does not look at the first and last character of the 38 character ("{...}") notation,
+	// so it takes any two characters around a UUID for braces; uuid.Validate checks them.
 	jti := tokenJTI(token)
-	if _, err := uuid.Parse(jti); err != nil {
+	if err := uuid.Validate(jti); err != nil {
 		return fmt.Errorf("token jti is not a valid uuid: %w", err)
 	}
 
